@@ -92,6 +92,7 @@ def run(P: Program, R: Report, tier: str) -> None:
         "the per-frame offset never decreases (an empty frame cannot reset it)",
         "relabel-by-track writes into a fresh zero array through per-frame masks of the source only, one label per component",
     ]
+    R.decides += ["the running offset is initialised outside every loop; the time attribute the relabeller indexes with is the frame index of the caller's own array"]
     R.not_decided += ["partition preservation per frame and label equality per track as values"]
     f = P.func_named("ensure_unique_labels")
     # the running offset: a variable initialised before the frame loop and reassigned inside it, whose value is
